@@ -233,9 +233,10 @@ class AcctSim(object):
                 tag, self.specs[i]["name"], m, want, float(L.mreq[i]), float(L.mult[i]), float(abs(L.pos[i])), L.liq_side(i)),
                 kind="after_" + tag.split(":")[0])
 
-    def observe_valuation(self, tag, after_trade=None):
+    def observe_valuation(self, tag, after_trade=None, weights_first=False):
         """Value the account through the public API and evaluate C01/C05 (and
-        C13's valuation clauses)."""
+        C13's valuation clauses).  weights_first: the first valuation call after whatever happened
+        before is holdings_weights() (not the NLV), judged against the account as it is afterwards."""
         L = self.L
         b = self.broker
         missing = L.any_liq_missing()
@@ -243,6 +244,14 @@ class AcctSim(object):
             if "c13" in self.oracles:
                 self.check_valuation_raises(tag)
             return None
+        w_first = None
+        if weights_first and "c05" in self.oracles and float(L.nlv()) > L.tol() * 10:
+            try:
+                w_first = b.holdings_weights()
+            except Exception as e:
+                self.violate("unexpected_exception", "{}: holdings_weights raised {!r} although every held position has a liquidation quote".format(tag, e),
+                             exc=type(e).__name__, where="holdings_weights_first")
+                return None
         try:
             nlv = b.net_liquidation_value(raise_if_broke=False)
         except Exception as e:
@@ -268,6 +277,20 @@ class AcctSim(object):
             if abs(float(tot) - nlv) > L.tol():
                 self.violate("decomposition", "{}: cash {} + margins {} + fully-paid liquidation values = {} but reported NLV {}".format(
                     tag, cash, sum(margins), float(tot), nlv), kind="sum")
+            if w_first is not None and not self.violations:
+                self.probe("weights_queried_before_any_valuation")
+                for i in range(L.n):
+                    e = float(L.notional(i)) / nlv
+                    got = w_first.get(self.contracts[i], 0.0)
+                    if abs(got - e) > 1e-9 * max(1.0, abs(e)) + L.slack / max(nlv, 1e-300):
+                        self.violate("weights", "{}: weight of {} (asked before any other valuation) is {} expected pos*liq*mult/NLV = {}".format(
+                            tag, self.specs[i]["name"], got, e), kind="weight_first")
+                e = cash / nlv
+                got = [v for k_, v in w_first.items() if type(k_).__name__ == "Cash"]
+                got = got[0] if got else 0.0
+                if abs(got - e) > 1e-9 * max(1.0, abs(e)) + L.slack / max(nlv, 1e-300):
+                    self.violate("weights", "{}: weight of cash (asked before any other valuation) is {} but cash {} / NLV {} = {}".format(
+                        tag, got, cash, nlv, e), kind="cash_weight_first")
             if float(m) > L.tol() * 10 and not self.violations:
                 try:
                     w = b.holdings_weights()
@@ -482,7 +505,7 @@ class AcctSim(object):
         return {"c": i}
 
     def op_value(self, op):
-        nlv = self.observe_valuation("value")
+        nlv = self.observe_valuation("value", weights_first=bool(op.get("wf")))
         return {"nlv": nlv}
 
     def op_advance(self, op):
@@ -860,7 +883,7 @@ class AcctSim(object):
                 self.log.append([k, name, canon(rec), "VIOLATION"])
                 break
             if name == "quote" and pre_obs is not None and not L.any_liq_missing():
-                post_obs = self.observe_valuation("post-quote")
+                post_obs = self.observe_valuation("post-quote", weights_first=(k % 3 == 0))
                 if post_obs is not None and not self.violations:
                     i = op["c"]
                     new_liq = F(L.liq_side(i)) if L.pos[i] != 0 else F(0)
